@@ -10,6 +10,7 @@ Line-protocol driver for C19 (group chain). One op per line:
   rmto <h>                           removeFromCommonAncestor(GroupHeight = h)
   restart                            drop memory, run start-up on the store
   crash <k> add …|rmlast|rmto <h>    the op with only k physical writes let through, then restart
+  fault <j> add …|rmlast|rmto <h>    the op with its j-th physical write (from 0) failing with an error
   forkput <key>                      Put(key, 0x01) on the store with prefix "groupFork" (shared key space)
   cadd <id> <pre> <parent> <create>  AddGroup that ran concurrently with another one (answer: result only)
   count | last | byheight <i> | byid <x> | iter | sync <x> | syncat <h> <n> | dump | mirror
@@ -240,6 +241,27 @@ def step (s : DState) (line : String) : DState × String :=
         | some kb =>
           let c' := { c with disk := sput c.disk ([0x46, 0x6f, 0x72, 0x6b] ++ kb) (.ref [1]) }
           ({ s with boot := some (.alive c') }, "ok")
+      | "fault" :: j :: rest =>
+        -- the j-th physical write (from 0) of the op returns an error and is not performed
+        match parseNat? j, rest with
+        | some j, ["add", a, b, p, cr] =>
+          match parseGroup4 a b p cr with
+          | none => (s, "bad-op")
+          | some g =>
+            if addCheck c g = .ok ∧ c.count ≥ 9223372036854775808 then ({ s with boot := none }, "unmodelled") else
+            let (r, c') := addGroupF c g (some j)
+            ({ s with boot := some (.alive c') }, addResStr r ++ " " ++ status c')
+        | some j, ["rmlast"] =>
+          let r := removeF c c.last (some j)
+          ({ s with boot := some (.alive r.2.1) }, toString r.1 ++ " " ++ status r.2.1)
+        | some j, ["rmto", h] =>
+          match parseNat? h with
+          | none => (s, "bad-op")
+          | some h =>
+            if c.count ≥ 4294967296 then (s, "unmodelled") else
+            let c' := rmToF c h j
+            ({ s with boot := some (.alive c') }, "done " ++ status c')
+        | _, _ => (s, "bad-op")
       | "crash" :: k :: rest =>
         match parseNat? k with
         | none => (s, "bad-op")
